@@ -6,8 +6,11 @@ NAME = "formats"
 FMTS = ["json", "json5", "yaml", "plist"]
 
 SCALARS = [0, 1, 2, 10, -7, 123456789, "a", "ab", "abc", "hello world", "x y", "1", "true", "null", "", True, False, 1.5, -2.25, 1e10,
-           "\u00e9t\u00e9", "\U0001F600", "a\U0001F600b", "line\nbreak", "tab\t", "\u2028", "#x", "- y", "k: v", "'q'", '"dq"', "<&>"]
-KEYS = ["a", "b", "c", "key", "k2", "name", "x y", "1", "\u00e9", "\U0001F600", "k\U0001F601z", "true", "null", "#k", "a:b", "<t>"]
+           "\u00e9t\u00e9", "\U0001F600", "a\U0001F600b", "line\nbreak", "tab\t", "\u2028", "#x", "- y", "k: v", "'q'", '"dq"', "<&>",
+           # strings that are numbers for a JSON parser but plain strings in YAML 1.1 (written unquoted in flow style)
+           "1e3", "2E5", "NaN", "Infinity", "-Infinity", "0x1F", "1_000"]
+KEYS = ["a", "b", "c", "key", "k2", "name", "x y", "1", "\u00e9", "\U0001F600", "k\U0001F601z", "true", "null", "#k", "a:b", "<t>",
+        "Name", "NAME", "K2", "A"]          # keys that differ only in case (the dumpers of yaml / plistlib sort, json keeps the order)
 
 
 def gen_datum(r, d=0):
@@ -52,6 +55,13 @@ def gen(rng, tier):
         if rng.random() < 0.7:
             case["variant"] = {f: rng.choice(vs) for f, vs in VARIANTS.items()}
         cases.append(case)
+    # keys equal up to case, written in different orders by the four writers; JSON-looking strings in flow-style YAML
+    ci = {"name": 3.5, "NAME": "x", "Name": [1]}
+    for v in ({"yaml": "block"}, {"yaml": "flow"}):
+        cases.append({"d": ci, "t": {"zz": {"k": 1}}, "argv": [], "variant": v})
+        cases.append({"d": {"NAME": "x", "name": 3.5}, "t": {"name": 1}, "argv": ["--dict-strategy", "match"], "variant": v})
+    cases.append({"d": ["1e3", "NaN", "Infinity", "2E5"], "t": ["1e3", 1000.0], "argv": [], "variant": {"yaml": "flow"}})
+    cases.append({"d": {"a": "1e3", "b": ["NaN"]}, "t": {"a": 1000.0}, "argv": [], "variant": {"yaml": "flow"}})
     # repeated sub-documents (YAML aliases), astral characters in keys and values, in every encoding variant
     rep = {"k\U0001F600": [1, {"a": "\U0001F601"}], "x": [1, {"a": "\U0001F601"}], "y": {"z": [1, {"a": "\U0001F601"}]}}
     rept = {"k\U0001F600": [1, {"a": "\U0001F601"}], "x": [2, {"a": "\U0001F601"}], "w": {"z": [1, {"a": "\U0001F601"}]}}
@@ -202,7 +212,34 @@ def impl(case):
                 rc2 = r2["rc"] if not r2["exc"] else "EXC:" + r2["exc"]
                 if rc2 != exit_[k]:
                     exit_[k] = f"{exit_[k]} by extension but {rc2} with --from-{a} --to-{b}"
-        return {"same_obj": same_obj, "ref_ok": ref_ok, "objs_differ": objs_differ, "cost": cost, "pred": pred, "eq": eq, "third": third, "exit": exit_}
+        # the same document given on standard input ("-") instead of as a file, in each format, also in an encoding
+        # that is not UTF-8 where the format has one (UTF-16 YAML with a byte-order mark, a binary property list)
+        import io, sys, plistlib
+        stdin_diff = {}
+        for f in FMTS:
+            data = open(pd[f], "rb").read()
+            alts = [("as-written", data)]
+            if f == "yaml":
+                alts.append(("utf-16", data.decode("utf-8").encode("utf-16")))
+            if f == "plist":
+                alts.append(("binary", plistlib.dumps(case["d"], fmt=plistlib.FMT_BINARY)))
+            for tag, blob in alts:
+                alt = os.path.join(dirpath, f"alt_{f}.dat")
+                with open(alt, "wb") as fh:
+                    fh.write(blob)
+                base = ["--no-status", "--from-" + f, "--to-" + f] + case["argv"]
+                r_file = clirun.run_main(base + [os.path.basename(alt), os.path.basename(pd[f])], dirpath)
+                old_stdin = sys.stdin
+                sys.stdin = io.TextIOWrapper(io.BytesIO(blob), encoding="utf-8", errors="surrogateescape")
+                try:
+                    r_in = clirun.run_main(base + ["-", os.path.basename(pd[f])], dirpath)
+                finally:
+                    sys.stdin = old_stdin
+                a = (r_file["rc"], r_file["exc"], r_file["out"])
+                b = (r_in["rc"], r_in["exc"], r_in["out"])
+                if a != b:
+                    stdin_diff[f + ":" + tag] = [f"file: rc={a[0]} exc={a[1]}", f"stdin: rc={b[0]} exc={b[1]} {r_in['msg'] or r_in['err'][:120]}"]
+        return {"same_obj": same_obj, "stdin_diff": stdin_diff, "ref_ok": ref_ok, "objs_differ": objs_differ, "cost": cost, "pred": pred, "eq": eq, "third": third, "exit": exit_}
     finally:
         shutil.rmtree(dirpath, ignore_errors=True)
 
@@ -226,6 +263,8 @@ def monitor(case, obs):
             hits.append({"prop": "C09", "key": f"exit:{k}", "what": f"same data as files {k}: command exits with 1"})
         elif obs["exit"][k] != 0:
             hits.append({"prop": "C09", "key": f"bad-exit:{k}:{obs['exit'][k]}", "what": f"same data as files {k}: command ends with {obs['exit'][k]}"})
+    for k, (a, b) in sorted((obs.get("stdin_diff") or {}).items()):
+        hits.append({"prop": "C09", "key": f"stdin-differs-from-file:{k}", "what": f"the same bytes as a file and on standard input ({k}): {a}; {b}"})
     ref = obs["third"]["json->json"]
     for k, c in obs["third"].items():
         if not isinstance(c, int):
